@@ -71,6 +71,8 @@ func main() {
 		os.Exit(rp.Main(os.Args[2:]))
 	case "rb":
 		os.Exit(rb.Main(os.Args[2:]))
+	case "lb":
+		os.Exit(rb.LabelsMain(os.Args[2:]))
 	case "rbs":
 		os.Exit(rbs.Main(os.Args[2:]))
 	case "rbs-agent":
